@@ -1340,6 +1340,225 @@ Qed.
 End FailNotEof.
 
 
+(* ---------- attachment parsing through the record-level limited reader ---------- *)
+Definition att_parse (lim : bytes * option err) : outcome (N * N * bytes * bytes * N * nat) :=
+  let* (lt, o1) := lim_read 8 lim 0 in
+  let* (ct, o2) := lim_read 8 lim o1 in
+  let* (name, o3) := lim_pstr lim o2 in
+  let* (media, o4) := lim_pstr lim o3 in
+  let* (ds, o5) := lim_read 8 lim o4 in
+  Ok (unle lt, unle ct, name, media, unle ds, o5).
+
+Lemma sub_app_l (buf t : bytes) off n : (off + n <= length buf)%nat -> sub (buf ++ t) off n = sub buf off n.
+Proof.
+  intros H. unfold sub. rewrite skipn_app. rewrite firstn_app.
+  rewrite skipn_length. replace (n - (length buf - off))%nat with 0%nat by lia.
+  cbn [firstn]. apply app_nil_r.
+Qed.
+
+Lemma lim_read_ok n buf en off b o : lim_read n (buf, en) off = Ok (b, o) ->
+  o = (off + n)%nat /\ (o <= length buf)%nat /\ b = sub buf off n.
+Proof.
+  unfold lim_read. destruct (Nat.leb (off + n) (length buf)) eqn:E; [|discriminate].
+  apply Nat.leb_le in E. intros H; inversion H; subst. auto.
+Qed.
+Lemma lim_read_okerr n lim off : okerr (lim_read n lim off).
+Proof. destruct lim as [buf en]. unfold lim_read. destruct (Nat.leb _ _); exact I. Qed.
+Lemma lim_read_ext n buf en en' t off v : lim_read n (buf, en) off = Ok v ->
+  lim_read n (buf ++ t, en') off = Ok v.
+Proof.
+  unfold lim_read. destruct (Nat.leb (off + n) (length buf)) eqn:E; [|discriminate].
+  apply Nat.leb_le in E. intros H; inversion H; subst.
+  rewrite app_length. replace (Nat.leb (off + n) (length buf + length t)) with true
+    by (symmetry; apply Nat.leb_le; lia).
+  rewrite sub_app_l by lia. reflexivity.
+Qed.
+Lemma lim_read_err n buf (e : err) off x : lim_read n (buf, Some e) off = Err x -> x = e.
+Proof. unfold lim_read. destruct (Nat.leb _ _); [discriminate|]. intros H; inversion H; reflexivity. Qed.
+
+Lemma lim_pstr_ok buf en off b o : lim_pstr (buf, en) off = Ok (b, o) ->
+  (off <= o)%nat /\ (o <= length buf)%nat.
+Proof.
+  unfold lim_pstr. destruct (lim_read 4 (buf, en) off) as [[lb off1]| | | |] eqn:E; try discriminate.
+  apply lim_read_ok in E. destruct E as [-> [E2 _]].
+  destruct (_ <=? _) eqn:E3; [|discriminate]. apply N.leb_le in E3. unfold blen in E3.
+  intros H; inversion H; subst. lia.
+Qed.
+Lemma lim_pstr_okerr lim off : okerr (lim_pstr lim off).
+Proof.
+  unfold lim_pstr. pose proof (lim_read_okerr 4 lim off) as H.
+  destruct (lim_read 4 lim off) as [[lb off1]| | | |]; try exact I; try contradiction.
+  destruct lim as [buf en]. destruct (_ <=? _); exact I.
+Qed.
+Lemma lim_pstr_ext buf en en' t off v : lim_pstr (buf, en) off = Ok v ->
+  lim_pstr (buf ++ t, en') off = Ok v.
+Proof.
+  unfold lim_pstr. destruct (lim_read 4 (buf, en) off) as [[lb off1]| | | |] eqn:E; try discriminate.
+  rewrite (lim_read_ext _ _ _ en' t _ _ E).
+  destruct (_ <=? blen buf) eqn:E3; [|discriminate]. apply N.leb_le in E3.
+  rewrite blen_app. replace (N.of_nat off1 + unle lb <=? blen buf + blen t) with true by lia.
+  intros H; inversion H; subst. unfold blen in E3. rewrite sub_app_l by lia. reflexivity.
+Qed.
+Lemma lim_pstr_err buf (e : err) off x : lim_pstr (buf, Some e) off = Err x -> x = e.
+Proof.
+  unfold lim_pstr. destruct (lim_read 4 (buf, Some e) off) as [[lb off1]| | | |] eqn:E; try discriminate.
+  - destruct (_ <=? _); [discriminate|]. intros H; inversion H; reflexivity.
+  - intros H; inversion H; subst. eapply lim_read_err; eauto.
+Qed.
+
+Lemma att_parse_okerr lim : okerr (att_parse lim).
+Proof.
+  unfold att_parse.
+  apply okerr_bind; [apply lim_read_okerr|intros [lt o1] _].
+  apply okerr_bind; [apply lim_read_okerr|intros [ct o2] _].
+  apply okerr_bind; [apply lim_pstr_okerr|intros [name o3] _].
+  apply okerr_bind; [apply lim_pstr_okerr|intros [media o4] _].
+  apply okerr_bind; [apply lim_read_okerr|intros [ds o5] _]. exact I.
+Qed.
+
+Lemma att_parse_ok buf en lt ct name media ds o5 :
+  att_parse (buf, en) = Ok (lt, ct, name, media, ds, o5) -> (o5 <= length buf)%nat.
+Proof.
+  unfold att_parse.
+  destruct (lim_read 8 (buf, en) 0) as [[a o1]| | | |]; cbn [bind]; try discriminate.
+  destruct (lim_read 8 (buf, en) o1) as [[b o2]| | | |]; cbn [bind]; try discriminate.
+  destruct (lim_pstr (buf, en) o2) as [[c o3]| | | |]; cbn [bind]; try discriminate.
+  destruct (lim_pstr (buf, en) o3) as [[d o4]| | | |]; cbn [bind]; try discriminate.
+  destruct (lim_read 8 (buf, en) o4) as [[f o5']| | | |] eqn:E; cbn [bind]; try discriminate.
+  apply lim_read_ok in E. intros H; inversion H; subst. lia.
+Qed.
+
+Lemma att_parse_ext buf en en' t v : att_parse (buf, en) = Ok v -> att_parse (buf ++ t, en') = Ok v.
+Proof.
+  unfold att_parse.
+  destruct (lim_read 8 (buf, en) 0) as [[a o1]| | | |] eqn:E1; cbn [bind]; try discriminate.
+  rewrite (lim_read_ext _ _ _ en' t _ _ E1); cbn [bind].
+  destruct (lim_read 8 (buf, en) o1) as [[b o2]| | | |] eqn:E2; cbn [bind]; try discriminate.
+  rewrite (lim_read_ext _ _ _ en' t _ _ E2); cbn [bind].
+  destruct (lim_pstr (buf, en) o2) as [[c o3]| | | |] eqn:E3; cbn [bind]; try discriminate.
+  rewrite (lim_pstr_ext _ _ en' t _ _ E3); cbn [bind].
+  destruct (lim_pstr (buf, en) o3) as [[d o4]| | | |] eqn:E4; cbn [bind]; try discriminate.
+  rewrite (lim_pstr_ext _ _ en' t _ _ E4); cbn [bind].
+  destruct (lim_read 8 (buf, en) o4) as [[f o5']| | | |] eqn:E5; cbn [bind]; try discriminate.
+  rewrite (lim_read_ext _ _ _ en' t _ _ E5); cbn [bind]. auto.
+Qed.
+
+Lemma att_parse_err buf (e : err) x : att_parse (buf, Some e) = Err x -> x = e.
+Proof.
+  unfold att_parse.
+  destruct (lim_read 8 (buf, Some e) 0) as [[a o1]| | | |] eqn:E1; cbn [bind]; try discriminate.
+  2:{ intros H; inversion H; subst. eapply lim_read_err; eauto. }
+  destruct (lim_read 8 (buf, Some e) o1) as [[b o2]| | | |] eqn:E2; cbn [bind]; try discriminate.
+  2:{ intros H; inversion H; subst. eapply lim_read_err; eauto. }
+  destruct (lim_pstr (buf, Some e) o2) as [[c o3]| | | |] eqn:E3; cbn [bind]; try discriminate.
+  2:{ intros H; inversion H; subst. eapply lim_pstr_err; eauto. }
+  destruct (lim_pstr (buf, Some e) o3) as [[d o4]| | | |] eqn:E4; cbn [bind]; try discriminate.
+  2:{ intros H; inversion H; subst. eapply lim_pstr_err; eauto. }
+  destruct (lim_read 8 (buf, Some e) o4) as [[f o5']| | | |] eqn:E5; cbn [bind]; try discriminate.
+  intros H; inversion H; subst. eapply lim_read_err; eauto.
+Qed.
+
+(* the last attachment event of a run on a failing source may carry fewer data bytes *)
+Definition att_truncated (a' a : attobs) : Prop :=
+  ao_log a' = ao_log a /\ ao_create a' = ao_create a /\ ao_name a' = ao_name a /\
+  ao_media a' = ao_media a /\ ao_size a' = ao_size a /\ exists t, ao_data a = ao_data a' ++ t.
+Definition events_prefix_upto_attachment (evsF evsC : list event) : Prop :=
+  (exists t, evsC = evsF ++ t) \/
+  (exists pre a' a t, evsF = pre ++ [EvAttachment a'] /\ evsC = pre ++ EvAttachment a :: t /\
+                      att_truncated a' a).
+
+
+Section AttCb.
+Variable lo : lopts.
+
+(* what a reading callback (CbFull / CbPartial) observes, and how far the limited reader was consumed *)
+Definition att_cb (cb : cbmode) (lim : bytes * option err) (lt ct : N) (name media : bytes) (ds : N)
+  (o5 : nat) : attobs * nat :=
+  let dn := if 9223372036854775807 <? ds then 0 else ds in
+  let rest := skipn o5 (fst lim) in
+  let want := match cb with CbPartial k => N.min (N.of_nat k) dn | _ => dn end in
+  let got := take want rest in
+  let short := blen got <? want in
+  let data_end := if short then snd lim else None in
+  let n_left := blen got <? dn in
+  let pos := (o5 + length got)%nat in
+  let crc_of := crc32 (firstn pos (fst lim)) in
+  let computed := if n_left then Err EOther
+                  else Ok (if lo_compute_acrc lo then crc_of else 0) in
+  let '(parsed_crc, pos') :=
+    if n_left then (Err EOther, pos)
+    else match lim_read 4 lim pos with
+         | Ok (cb4, p') => (Ok (unle cb4), p')
+         | Err e => (Err e, length (fst lim))
+         | _ => (Err EOther, pos) end in
+  ({| ao_log := lt; ao_create := ct; ao_name := name; ao_media := media; ao_size := ds;
+      ao_data := got; ao_data_end := data_end; ao_computed := computed; ao_parsed := parsed_crc |}, pos').
+
+Lemma do_attachment_cb rl r : lo_cb lo <> CbNone ->
+  do_attachment lo rl r =
+  match att_parse (limited rl r) with
+  | Ok (lt, ct, name, media, ds, o5) =>
+    match lo_cb lo with
+    | CbFail => (None, Some ECallback, {| r_buf := skipn o5 (r_buf r); r_end := r_end r; r_seek := r_seek r |})
+    | cb =>
+      let '(ob, consumed) := att_cb cb (limited rl r) lt ct name media ds o5 in
+      let r1 := {| r_buf := skipn consumed (r_buf r); r_end := r_end r; r_seek := r_seek r |} in
+      let '(e, r2) := rd_skip (rl - N.of_nat consumed) r1 in
+      (Some (EvAttachment ob), e, r2)
+    end
+  | Err e => (None, Some e, {| r_buf := drop (blen (fst (limited rl r))) (r_buf r); r_end := r_end r; r_seek := r_seek r |})
+  | _ => (None, Some EOther, r)
+  end.
+Proof.
+  intros Hcb. unfold do_attachment. fold (att_parse (limited rl r)).
+  destruct (lo_cb lo) eqn:Ecb; [contradiction| | |].
+  - destruct (att_parse (limited rl r)) as [[[[[[lt ct] name] media] ds] o5]| | | |]; try reflexivity.
+    unfold att_cb. cbv zeta.
+    match goal with |- context[let '(_, _) := ?X in _] => destruct X as [pc pos'] end. reflexivity.
+  - destruct (att_parse (limited rl r)) as [[[[[[lt ct] name] media] ds] o5]| | | |]; try reflexivity.
+    unfold att_cb. cbv zeta.
+    match goal with |- context[let '(_, _) := ?X in _] => destruct X as [pc pos'] end. reflexivity.
+  - destruct (att_parse (limited rl r)) as [[[[[[lt ct] name] media] ds] o5]| | | |]; reflexivity.
+Qed.
+
+Lemma att_cb_consumed cb buf en lt ct name media ds o5 : (o5 <= length buf)%nat ->
+  (snd (att_cb cb (buf, en) lt ct name media ds o5) <= length buf)%nat.
+Proof.
+  intros Ho. unfold att_cb. cbn [fst snd].
+  set (dn := if 9223372036854775807 <? ds then 0 else ds).
+  set (want := match cb with CbPartial k => N.min (N.of_nat k) dn | _ => dn end).
+  set (got := take want (skipn o5 buf)).
+  assert (Hg : (o5 + length got <= length buf)%nat).
+  { subst got. rewrite take_length. unfold blen. rewrite skipn_length. lia. }
+  destruct (blen got <? dn); [cbn [snd]; exact Hg|].
+  destruct (lim_read 4 (buf, en) (o5 + length got)) as [[cb4 p']| | | |] eqn:E; cbn [snd]; try lia.
+  apply lim_read_ok in E. lia.
+Qed.
+
+Lemma take_prefix n (a t : bytes) : exists u, take n (a ++ t) = take n a ++ u.
+Proof.
+  destruct (N.le_gt_cases n (blen a)) as [L|L].
+  - rewrite take_app_le by lia. exists []. rewrite app_nil_r. reflexivity.
+  - rewrite take_app_ge by lia. rewrite (take_all n a) by lia. eexists. reflexivity.
+Qed.
+
+Lemma att_cb_trunc cb buf t enF enC lt ct name media ds o5 : (o5 <= length buf)%nat ->
+  att_truncated (fst (att_cb cb (buf, enF) lt ct name media ds o5))
+                (fst (att_cb cb (buf ++ t, enC) lt ct name media ds o5)).
+Proof.
+  intros Ho. unfold att_cb. cbn [fst snd].
+  set (dn := if 9223372036854775807 <? ds then 0 else ds).
+  set (want := match cb with CbPartial k => N.min (N.of_nat k) dn | _ => dn end).
+  match goal with |- att_truncated (fst (let '(_, _) := ?X in _)) (fst (let '(_, _) := ?Y in _)) =>
+    destruct X as [pc1 p1]; destruct Y as [pc2 p2] end.
+  cbn [fst]. unfold att_truncated. cbn [ao_log ao_create ao_name ao_media ao_size ao_data].
+  repeat (split; [reflexivity|]).
+  rewrite skipn_app. replace (o5 - length buf)%nat with 0%nat by lia. cbn [skipn].
+  destruct (take_prefix want (skipn o5 buf) t) as [u Hu]. exists u. exact Hu.
+Qed.
+End AttCb.
+
+
 Section Prefix.
 Variable lo : lopts.
 Variable dstream : doracle.
@@ -1348,7 +1567,6 @@ Hypothesis He1 : e <> EEOF.
 Hypothesis He2 : e <> EUnexpectedEOF.
 Hypothesis He3 : e <> ETruncated.
 Hypothesis He4 : e <> EInvalidChunkCrc.
-Hypothesis Hcb : lo_cb lo = CbNone.
 (* decoders pass the error of the underlying reader through *)
 Hypothesis Hprop : forall c a, snd (dstream c a (Some e)) = Some e.
 (* what a decoder delivers from a cut input is a prefix of what it delivers from the whole input *)
@@ -1649,12 +1867,422 @@ Proof.
   apply orb_false_iff. split; apply err_eqb_neq; assumption.
 Qed.
 
+(* ---------- attachments with callbacks ---------- *)
+Definition dead (r : rdr) : Prop := r_buf r = [] /\ r_end r = Some e.
+
+Lemma att_truncated_refl a : att_truncated a a.
+Proof. unfold att_truncated. repeat (split; [reflexivity|]). exists []. rewrite app_nil_r. reflexivity. Qed.
+
+Lemma cut_same r : r_end r = Some e -> cut r r.
+Proof. intros H. split; [exact H|split; [reflexivity|exists []; rewrite app_nil_r; reflexivity]]. Qed.
+
+Lemma cut_skipn k r rC : cut r rC -> (k <= length (r_buf r))%nat ->
+  cut {| r_buf := skipn k (r_buf r); r_end := r_end r; r_seek := r_seek r |}
+      {| r_buf := skipn k (r_buf rC); r_end := r_end rC; r_seek := r_seek rC |}.
+Proof.
+  intros [C1 [C2 [t C3]]] Hk. split; [exact C1|split; [exact C2|]]. cbn [r_buf]. rewrite C3.
+  rewrite skipn_app. replace (k - length (r_buf r))%nat with 0%nat by lia. exists t. reflexivity.
+Qed.
+
+Definition att_same (rC : rdr) (evF : option event) (oeF : option err) (r'F : rdr)
+  (evC : option event) (oeC : option err) (r'C : rdr) : Prop :=
+  evF = evC /\ oeF = oeC /\ r_end r'C = r_end rC /\ cut r'F r'C.
+Definition att_trunc_res (evF : option event) (oeF : option err) (r'F : rdr) (evC : option event) : Prop :=
+  exists a' a, evF = Some (EvAttachment a') /\ evC = Some (EvAttachment a) /\ att_truncated a' a /\
+               (oeF = Some e \/ (oeF = None /\ dead r'F)).
+
+(* the tail of do_attachment for a reading callback, on cut readers with the same observation *)
+Lemma att_tail_same rl r rC ob consumed oeF r'F oeC r'C :
+  cut r rC -> (consumed <= length (r_buf r))%nat ->
+  rd_skip (rl - N.of_nat consumed) {| r_buf := skipn consumed (r_buf r); r_end := r_end r; r_seek := r_seek r |} = (oeF, r'F) ->
+  rd_skip (rl - N.of_nat consumed) {| r_buf := skipn consumed (r_buf rC); r_end := r_end rC; r_seek := r_seek rC |} = (oeC, r'C) ->
+  att_same rC (Some (EvAttachment ob)) oeF r'F (Some (EvAttachment ob)) oeC r'C \/
+  att_trunc_res (Some (EvAttachment ob)) oeF r'F (Some (EvAttachment ob)).
+Proof.
+  intros Hc Hk HF HC.
+  destruct (rd_skip_rrel _ _ _ _ _ (or_intror (cut_skipn consumed r rC Hc Hk)) HF) as [[-> _]|[r2C [EC [Ee HR]]]].
+  - right. exists ob, ob. split; [reflexivity|split; [reflexivity|split; [apply att_truncated_refl|left; reflexivity]]].
+  - left. rewrite EC in HC. inversion HC; subst. split; [reflexivity|split; [reflexivity|split; [exact Ee|]]].
+    destruct HR as [[_ <-]|HR]; [|exact HR].
+    apply cut_same. pose proof (rd_skip_adv _ _ _ _ HF) as [Ha _]. cbn [r_end] in Ha.
+    destruct Hc as [C1 _]. congruence.
+Qed.
+
+Lemma att_cb_consumed' cb buf en lt ct name media ds o5 ob consumed : (o5 <= length buf)%nat ->
+  att_cb lo cb (buf, en) lt ct name media ds o5 = (ob, consumed) -> (consumed <= length buf)%nat.
+Proof.
+  intros Ho H. pose proof (att_cb_consumed lo cb buf en lt ct name media ds o5 Ho) as Hk.
+  rewrite H in Hk. exact Hk.
+Qed.
+Lemma att_cb_trunc' cb buf t enF enC lt ct name media ds o5 obF cF obC cC : (o5 <= length buf)%nat ->
+  att_cb lo cb (buf, enF) lt ct name media ds o5 = (obF, cF) ->
+  att_cb lo cb (buf ++ t, enC) lt ct name media ds o5 = (obC, cC) ->
+  att_truncated obF obC.
+Proof.
+  intros Ho H1 H2. pose proof (att_cb_trunc lo cb buf t enF enC lt ct name media ds o5 Ho) as Hk.
+  rewrite H1, H2 in Hk. exact Hk.
+Qed.
+
+Lemma limited_cut rl r rC : cut r rC ->
+  (rl <= blen (r_buf r) /\ limited rl rC = limited rl r /\ limited rl r = (take rl (r_buf r), None)) \/
+  (blen (r_buf r) < rl /\ limited rl r = (r_buf r, Some e) /\ exists t' enC, limited rl rC = (r_buf r ++ t', enC)).
+Proof.
+  intros [C1 [C2 [t C3]]]. unfold limited. rewrite C3, blen_app, C1.
+  destruct (N.le_gt_cases rl (blen (r_buf r))) as [L|L].
+  - left. replace (rl <=? blen (r_buf r)) with true by lia.
+    replace (rl <=? blen (r_buf r) + blen t) with true by lia. rewrite take_app_le by lia. auto.
+  - right. replace (rl <=? blen (r_buf r)) with false by lia. split; [exact L|split; [reflexivity|]].
+    destruct (rl <=? blen (r_buf r) + blen t).
+    + rewrite take_app_ge by lia. eauto.
+    + eauto.
+Qed.
+
+Definition att_read (cb : cbmode) (rl : N) (r : rdr) : option event * option err * rdr :=
+  match att_parse (limited rl r) with
+  | Ok (lt, ct, name, media, ds, o5) =>
+    let '(ob, consumed) := att_cb lo cb (limited rl r) lt ct name media ds o5 in
+    let r1 := {| r_buf := skipn consumed (r_buf r); r_end := r_end r; r_seek := r_seek r |} in
+    let '(e, r2) := rd_skip (rl - N.of_nat consumed) r1 in
+    (Some (EvAttachment ob), e, r2)
+  | Err e => (None, Some e, {| r_buf := drop (blen (fst (limited rl r))) (r_buf r); r_end := r_end r; r_seek := r_seek r |})
+  | _ => (None, Some EOther, r)
+  end.
+
+Definition att_res (rC : rdr) (evF : option event) (oeF : option err) (r'F : rdr)
+  (evC : option event) (oeC : option err) (r'C : rdr) : Prop :=
+  att_same rC evF oeF r'F evC oeC r'C \/ (evF = None /\ oeF = Some e) \/ att_trunc_res evF oeF r'F evC.
+
+Lemma att_read_sim cb rl r rC evF oeF r'F evC oeC r'C :
+  cut r rC ->
+  att_read cb rl r = (evF, oeF, r'F) -> att_read cb rl rC = (evC, oeC, r'C) ->
+  att_res rC evF oeF r'F evC oeC r'C.
+Proof.
+  intros Hc. pose proof Hc as [C1 [C2 [t C3]]]. unfold att_read, att_res.
+  destruct (limited_cut rl r rC Hc) as [[L [E1 E2]]|[L [E1 [t' [enC E2]]]]].
+  - (* the whole attachment record is available on both sides *)
+    rewrite E1. destruct (att_parse (limited rl r)) as [[[[[[lt ct] name] media] ds] o5]| | | |] eqn:Ep.
+    + rewrite E2 in Ep. pose proof (att_parse_ok _ _ _ _ _ _ _ _ Ep) as Ho.
+      destruct (att_cb lo cb (limited rl r) lt ct name media ds o5) as [ob consumed] eqn:Ea.
+      assert (Hk : (consumed <= length (r_buf r))%nat).
+      { rewrite E2 in Ea. apply att_cb_consumed' in Ea; [|exact Ho].
+        rewrite take_length in Ea. unfold blen in Ea. lia. }
+      cbv zeta.
+      match goal with |- context[rd_skip ?n {| r_buf := skipn consumed (r_buf r); r_end := ?a; r_seek := ?b |}] =>
+        destruct (rd_skip n {| r_buf := skipn consumed (r_buf r); r_end := a; r_seek := b |}) as [oe1 r1] eqn:EF end.
+      match goal with |- context[rd_skip ?n {| r_buf := skipn consumed (r_buf rC); r_end := ?a; r_seek := ?b |}] =>
+        destruct (rd_skip n {| r_buf := skipn consumed (r_buf rC); r_end := a; r_seek := b |}) as [oe2 r2] eqn:EC end.
+      intros H1 H2; inversion H1; inversion H2; subst.
+      destruct (att_tail_same _ _ _ ob _ _ _ _ _ Hc Hk EF EC) as [A|A]; auto.
+    + intros H1 H2; inversion H1; inversion H2; subst. left.
+      split; [reflexivity|split; [reflexivity|split; [reflexivity|apply cut_drop; exact Hc]]].
+    + intros H1 H2; inversion H1; inversion H2; subst. left.
+      split; [reflexivity|split; [reflexivity|split; [reflexivity|exact Hc]]].
+    + intros H1 H2; inversion H1; inversion H2; subst. left.
+      split; [reflexivity|split; [reflexivity|split; [reflexivity|exact Hc]]].
+    + intros H1 H2; inversion H1; inversion H2; subst. left.
+      split; [reflexivity|split; [reflexivity|split; [reflexivity|exact Hc]]].
+  - (* the attachment record is cut by the failure *)
+    rewrite E1, E2. pose proof (att_parse_okerr (r_buf r, Some e)) as Hok.
+    destruct (att_parse (r_buf r, Some e)) as [[[[[[lt ct] name] media] ds] o5]|x| | |] eqn:Ep; try contradiction.
+    2:{ apply att_parse_err in Ep. subst x. intros H1 _. inversion H1; subst. right. left. auto. }
+    rewrite (att_parse_ext _ _ enC t' _ Ep). pose proof (att_parse_ok _ _ _ _ _ _ _ _ Ep) as Ho.
+    destruct (att_cb lo cb (r_buf r, Some e) lt ct name media ds o5) as [obF cF] eqn:EaF.
+    destruct (att_cb lo cb (r_buf r ++ t', enC) lt ct name media ds o5) as [obC cC] eqn:EaC.
+    pose proof (att_cb_consumed' _ _ _ _ _ _ _ _ _ _ _ Ho EaF) as Hk.
+    pose proof (att_cb_trunc' _ _ _ _ _ _ _ _ _ _ _ _ _ _ _ Ho EaF EaC) as Ht.
+    cbv zeta.
+    match goal with |- context[rd_skip ?n {| r_buf := skipn cF (r_buf r); r_end := ?a; r_seek := ?b |}] =>
+      destruct (rd_skip n {| r_buf := skipn cF (r_buf r); r_end := a; r_seek := b |}) as [oe1 r1] eqn:EF end.
+    match goal with |- context[rd_skip ?n {| r_buf := skipn cC (r_buf rC); r_end := ?a; r_seek := ?b |}] =>
+      destruct (rd_skip n {| r_buf := skipn cC (r_buf rC); r_end := a; r_seek := b |}) as [oe2 r2] eqn:EC end.
+    intros H1 H2; inversion H1; inversion H2; subst. right. right.
+    exists obF, obC. split; [reflexivity|split; [reflexivity|split; [exact Ht|]]].
+    revert EF. unfold rd_skip. cbn [r_buf r_end r_seek].
+    assert (Hb : blen (skipn cF (r_buf r)) < rl - N.of_nat cF).
+    { unfold blen in *. rewrite skipn_length. lia. }
+    destruct (r_seek r).
+    + intros H; inversion H; subst. right. split; [reflexivity|]. split; [|exact C1].
+      cbn [r_buf]. apply drop_all. lia.
+    + replace (blen (skipn cF (r_buf r)) <? rl - N.of_nat cF) with true by lia.
+      intros H; inversion H; subst. left. unfold end_err. cbn [r_end]. rewrite C1. reflexivity.
+Qed.
+
+Lemma do_attachment_sim rl r rC evF oeF r'F evC oeC r'C :
+  cut r rC ->
+  do_attachment lo rl r = (evF, oeF, r'F) -> do_attachment lo rl rC = (evC, oeC, r'C) ->
+  att_res rC evF oeF r'F evC oeC r'C.
+Proof.
+  intros Hc. pose proof Hc as [C1 [C2 [t C3]]].
+  destruct (lo_cb lo) eqn:Ecb.
+  - (* no callback: skipReader *)
+    rewrite !do_attachment_none by exact Ecb.
+    destruct (rd_skip rl r) as [oe r2] eqn:EF. cbn [fst snd].
+    destruct (rd_skip_rrel _ _ _ _ _ (or_intror Hc) EF) as [[-> _]|[r2C [EC [Ee HR]]]].
+    + intros H _. inversion H; subst. right. left. auto.
+    + rewrite EC. cbn [fst snd]. intros H1 H2; inversion H1; inversion H2; subst. left.
+      split; [reflexivity|split; [reflexivity|split; [exact Ee|]]].
+      destruct HR as [[_ <-]|HR]; [|exact HR].
+      apply cut_same. pose proof (rd_skip_adv _ _ _ _ EF) as [Ha _]. congruence.
+  - rewrite !do_attachment_cb by (rewrite Ecb; discriminate). rewrite Ecb.
+    apply (att_read_sim CbFull); exact Hc.
+  - rewrite !do_attachment_cb by (rewrite Ecb; discriminate). rewrite Ecb.
+    apply (att_read_sim (CbPartial k)); exact Hc.
+  - (* callback fails without reading *)
+    rewrite !do_attachment_cb by (rewrite Ecb; discriminate). rewrite Ecb.
+    destruct (limited_cut rl r rC Hc) as [[L [E1 E2]]|[L [E1 [t' [enC E2]]]]].
+    + rewrite E1. destruct (att_parse (limited rl r)) as [[[[[[lt ct] name] media] ds] o5]| | | |] eqn:Ep.
+      * rewrite E2 in Ep. pose proof (att_parse_ok _ _ _ _ _ _ _ _ Ep) as Ho.
+        intros H1 H2; inversion H1; inversion H2; subst. left.
+        split; [reflexivity|split; [reflexivity|split; [reflexivity|]]].
+        apply cut_skipn; [exact Hc|]. rewrite take_length in Ho. unfold blen in Ho. lia.
+      * intros H1 H2; inversion H1; inversion H2; subst. left.
+        split; [reflexivity|split; [reflexivity|split; [reflexivity|apply cut_drop; exact Hc]]].
+      * intros H1 H2; inversion H1; inversion H2; subst. left.
+        split; [reflexivity|split; [reflexivity|split; [reflexivity|exact Hc]]].
+      * intros H1 H2; inversion H1; inversion H2; subst. left.
+        split; [reflexivity|split; [reflexivity|split; [reflexivity|exact Hc]]].
+      * intros H1 H2; inversion H1; inversion H2; subst. left.
+        split; [reflexivity|split; [reflexivity|split; [reflexivity|exact Hc]]].
+    + rewrite E1, E2. pose proof (att_parse_okerr (r_buf r, Some e)) as Hok.
+      destruct (att_parse (r_buf r, Some e)) as [[[[[[lt ct] name] media] ds] o5]|x| | |] eqn:Ep; try contradiction.
+      2:{ apply att_parse_err in Ep. subst x. intros H1 _. inversion H1; subst. right. left. auto. }
+      rewrite (att_parse_ext _ _ enC t' _ Ep). pose proof (att_parse_ok _ _ _ _ _ _ _ _ Ep) as Ho.
+      intros H1 H2; inversion H1; inversion H2; subst. left.
+      split; [reflexivity|split; [reflexivity|split; [reflexivity|]]].
+      apply cut_skipn; [exact Hc|exact Ho].
+Qed.
+
+Lemma lex_loop_ext : forall n fuel s acc evs fin s',
+  lex_loop lo dstream n fuel s acc = Ok (evs, fin, s') -> exists t, evs = acc ++ t.
+Proof.
+  induction n as [|n IH]; intros fuel s acc evs fin s'; [discriminate|]. cbn [lex_loop].
+  destruct (lex_next lo dstream fuel 0 s []) as [[[evs1 r] s1]| | | |]; try discriminate.
+  destruct r.
+  - intros H. apply IH in H. destruct H as [t ->]. exists ((evs1 ++ [ev]) ++ t). rewrite <- app_assoc. reflexivity.
+  - intros H; inversion H; subst. eexists. reflexivity.
+Qed.
+
+Lemma new_lexer_sim p rest sk sF :
+  new_lexer lo {| r_buf := p; r_end := Some e; r_seek := sk |} = Ok sF ->
+  exists sC, new_lexer lo {| r_buf := p ++ rest; r_end := None; r_seek := sk |} = Ok sC /\ srel sF sC.
+Proof.
+  assert (C0 : cut {| r_buf := p; r_end := Some e; r_seek := sk |} {| r_buf := p ++ rest; r_end := None; r_seek := sk |}).
+  { split; [reflexivity|split; [reflexivity|exists rest; reflexivity]]. }
+  unfold new_lexer. destruct (lo_skip_magic lo).
+  { intros H; inversion H; subst. eexists. split; [reflexivity|].
+    split; [exact C0|]. rsimpl. repeat split. }
+  destruct (rd_full 8 {| r_buf := p; r_end := Some e; r_seek := sk |}) as [[m x] r1] eqn:EF.
+  destruct (rd_full_rrel _ _ _ _ _ _ (or_intror C0) EF) as [[-> _]|[r1C [EC [EeC HC]]]]; [discriminate|].
+  rewrite EC. destruct x; [discriminate|]. destruct (bytes_eqb m magic); [|discriminate].
+  intros H; inversion H; subst. eexists. split; [reflexivity|].
+  destruct HC as [[HC _]|HC]; [discriminate|].
+  split; [exact HC|]. rsimpl. repeat split. exact EeC.
+Qed.
+
+
+(* ---------- one iteration of Next, any callback mode ---------- *)
+Definition step_evs (x : sres) : list event :=
+  match x with SDone evs _ _ => evs | SCont _ evs => evs end.
+Definition dead_state (s : lstate) : Prop := dead (cur s).
+
 Definition step_rel (a b : sres) : Prop :=
   match a, b with
   | SDone ev1 r1 s1, SDone ev2 r2 s2 => ev1 = ev2 /\ r1 = r2 /\ srel s1 s2
   | SCont s1 ev1, SCont s2 ev2 => ev1 = ev2 /\ srel s1 s2
   | _, _ => False
   end.
+
+Definition step_trunc (evs : list event) (xF xC : sres) : Prop :=
+  exists a' a, att_truncated a' a /\ step_evs xC = evs ++ [EvAttachment a] /\
+    ((exists sF', xF = SDone (evs ++ [EvAttachment a']) (NErr e) sF') \/
+     (exists sF', xF = SCont sF' (evs ++ [EvAttachment a']) /\ dead_state sF')).
+
+Lemma lex_step_sim_gen pcap sF sC evs : srel sF sC ->
+  (exists sF', lex_step lo dstream pcap sF evs = SDone evs (NErr e) sF') \/
+  step_rel (lex_step lo dstream pcap sF evs) (lex_step lo dstream pcap sC evs) \/
+  step_trunc evs (lex_step lo dstream pcap sF evs) (lex_step lo dstream pcap sC evs).
+Proof.
+  intros S. unfold lex_step. rewrite <- (srel_in_chunk _ _ S).
+  destruct (rd_full 9 (cur sF)) as [[hd x] r1] eqn:EF.
+  destruct (rd_full_rrel _ _ _ _ _ _ (srel_cur _ _ S) EF) as [[-> _]|[r1C [EC [EeC HC]]]].
+  { left. pose proof e_not_eofish as Hn. apply orb_false_iff in Hn. destruct Hn as [Hn1 Hn2].
+    rewrite Hn1, Hn2. cbn [orb]. rewrite andb_false_r. eexists. reflexivity. }
+  rewrite EC.
+  assert (S1 : srel (set_cur r1 sF) (set_cur r1C sC)).
+  { apply srel_set_cur; [exact S|exact EeC|]. destruct HC as [[A B]|HC]; [left; auto|right; exact HC]. }
+  destruct x as [x|].
+  { right. left. destruct (_ && (_ || _)).
+    - split; [reflexivity|apply srel_chunk_none; exact S1].
+    - destruct (_ || _); [destruct (_ && _)|]; (split; [reflexivity|split; [reflexivity|exact S1]]). }
+  set (rlen := unle (skipn 1 hd)).
+  destruct ((0 <? lo_max_record lo) && (lo_max_record lo <? rlen)).
+  { right. left. split; [reflexivity|split; [reflexivity|exact S1]]. }
+  destruct (_ && negb (lo_emit_chunks lo)).
+  { destruct (load_chunk lo dstream rlen (set_cur r1 sF)) as [oeF s2F] eqn:ElF.
+    destruct (load_chunk lo dstream rlen (set_cur r1C sC)) as [oeC s2C] eqn:ElC.
+    destruct (load_chunk_sim _ _ _ _ _ _ _ S1 ElF ElC) as [->|[<- S2]].
+    - left. replace (err_eqb e EInvalidChunkCrc) with false by (symmetry; apply err_eqb_neq; exact He4).
+      rewrite andb_false_r. eexists. reflexivity.
+    - right. left. destruct oeF as [x|]; [destruct (lo_emit_invalid lo && _)|];
+        cbn [step_rel]; repeat (split; [reflexivity|]); exact S2. }
+  destruct (Byte.eqb _ OpAttachment).
+  { destruct (9223372036854775807 <? rlen); [right; left; split; [reflexivity|split; [reflexivity|exact S1]]|].
+    destruct (do_attachment lo rlen (cur (set_cur r1 sF))) as [[evF oeF] r2F] eqn:EdF.
+    destruct (do_attachment lo rlen (cur (set_cur r1C sC))) as [[evC oeC] r2C] eqn:EdC.
+    destruct (srel_cur _ _ S1) as [Heq|Hcut].
+    - (* same reader (inside a chunk that was delivered completely) *)
+      rewrite Heq in EdF. rewrite EdF in EdC. inversion EdC; subst.
+      assert (S2 : srel (set_cur r2C (set_cur r1 sF)) (set_cur r2C (set_cur r1C sC))).
+      { apply srel_set_cur; [exact S1|apply (do_attachment_adv _ _ _ _ _ _ EdF)|left; auto]. }
+      right. left. destruct oeC; cbn [step_rel]; repeat (split; [reflexivity|]); exact S2.
+    - destruct (do_attachment_sim _ _ _ _ _ _ _ _ _ Hcut EdF EdC) as [[-> [-> [Ee Hc2]]]|[[-> ->]|[a' [a [-> [-> [Ht Hd]]]]]]].
+      + assert (S2 : srel (set_cur r2F (set_cur r1 sF)) (set_cur r2C (set_cur r1C sC))).
+        { apply srel_set_cur; [exact S1|exact Ee|right; exact Hc2]. }
+        right. left. destruct oeC; cbn [step_rel]; repeat (split; [reflexivity|]); exact S2.
+      + left. eexists. reflexivity.
+      + right. right. exists a', a. split; [exact Ht|]. split; [destruct oeC; reflexivity|].
+        destruct Hd as [->|[-> Hd]].
+        * left. eexists. reflexivity.
+        * right. eexists. split; [reflexivity|]. unfold dead_state. rewrite cur_set_cur. exact Hd. }
+  destruct ((pcap <? rlen) && negb (rlen <? max_int32)).
+  { right. left. split; [reflexivity|split; [reflexivity|exact S1]]. }
+  set (s1F := if pcap <? rlen then _ else set_cur r1 sF).
+  set (s1C := if pcap <? rlen then _ else set_cur r1C sC).
+  assert (S2 : srel s1F s1C).
+  { subst s1F s1C. destruct (pcap <? rlen); [apply srel_allocs|]; exact S1. }
+  clearbody s1F s1C.
+  destruct (rd_full rlen (cur s1F)) as [[body x] r3] eqn:EF3.
+  destruct (rd_full_rrel _ _ _ _ _ _ (srel_cur _ _ S2) EF3) as [[-> _]|[r3C [EC3 [EeC3 HC3]]]].
+  { left. destruct e; try congruence; eexists; reflexivity. }
+  rewrite EC3.
+  assert (S3 : srel (set_cur r3 s1F) (set_cur r3C s1C)).
+  { apply srel_set_cur; [exact S2|exact EeC3|]. destruct HC3 as [[A B]|HC3]; [left; auto|right; exact HC3]. }
+  right. left. destruct x as [x|]; [destruct x; cbn [step_rel]; repeat (split; [reflexivity|]); exact S3|].
+  destruct (known_op _); [cbn [step_rel]; repeat (split; [reflexivity|]); exact S3|].
+  destruct (Byte.eqb _ x00); cbn [step_rel]; repeat (split; [reflexivity|]); exact S3.
+Qed.
+
+Lemma dead_step pcap s evs : dead_state s ->
+  exists s', lex_step lo dstream pcap s evs = SDone evs (NErr e) s'.
+Proof.
+  intros [D1 D2]. unfold lex_step, rd_full. rewrite D1, D2. cbn [blen length N.of_nat N.leb N.eqb N.compare].
+  change (9 =? 0) with false. change (9 <=? 0) with false. cbv iota.
+  pose proof e_not_eofish as Hn. apply orb_false_iff in Hn. destruct Hn as [Hn1 Hn2].
+  rewrite Hn1, Hn2. cbn [orb]. rewrite andb_false_r. eexists. reflexivity.
+Qed.
+
+Lemma lex_step_mono pcap s evs : exists t, step_evs (lex_step lo dstream pcap s evs) = evs ++ t.
+Proof.
+  assert (G : forall x, step_evs x = evs -> exists t, step_evs x = evs ++ t).
+  { intros x H. exists []. rewrite app_nil_r. exact H. }
+  unfold lex_step. destruct (rd_full 9 (cur s)) as [[hd x] r1].
+  destruct x as [x|].
+  { apply G. destruct (_ && (_ || _)); [reflexivity|]. destruct (_ || _); [destruct (_ && _)|]; reflexivity. }
+  destruct (_ && (_ <? _)); [apply G; reflexivity|].
+  destruct (_ && negb (lo_emit_chunks lo)).
+  { apply G. destruct (load_chunk _ _ _ _) as [[x|] s2]; [destruct (lo_emit_invalid lo && _)|]; reflexivity. }
+  destruct (Byte.eqb _ OpAttachment).
+  { destruct (9223372036854775807 <? _); [apply G; reflexivity|].
+    destruct (do_attachment _ _ _) as [[ev oe] r2].
+    destruct ev as [ev|]; [exists [ev]|exists []; rewrite app_nil_r]; destruct oe; reflexivity. }
+  apply G. destruct (_ && negb _); [reflexivity|].
+  destruct (rd_full _ _) as [[body x] r3].
+  destruct x as [x|]; [destruct x; reflexivity|].
+  destruct (known_op _); [reflexivity|]. destruct (Byte.eqb _ x00); reflexivity.
+Qed.
+
+Lemma lex_next_mono : forall fuel pcap s evs evs' res s',
+  lex_next lo dstream fuel pcap s evs = Ok (evs', res, s') -> exists t, evs' = evs ++ t.
+Proof.
+  induction fuel as [|f IH]; intros pcap s evs evs' res s'; [discriminate|].
+  rewrite lex_next_S. destruct (lex_step_mono pcap s evs) as [t Ht].
+  destruct (lex_step _ _ _ _ _) as [a b c|s1 evs1]; cbn [step_evs] in Ht; subst.
+  - intros H; inversion H; subst. eauto.
+  - intros H. apply IH in H. destruct H as [t2 ->]. exists (t ++ t2). apply app_assoc_reverse.
+Qed.
+
+(* outcome of one call of Next on related states *)
+Definition next_same (evsF : list event) (resF : nres) (sF' : lstate)
+  (evsC : list event) (resC : nres) (sC' : lstate) : Prop :=
+  evsF = evsC /\ resF = resC /\ srel sF' sC'.
+Definition next_fail (evsF : list event) (resF : nres) (evsC : list event) : Prop :=
+  resF = NErr e /\ exists t, evsC = evsF ++ t.
+Definition next_trunc (evsF : list event) (resF : nres) (evsC : list event) : Prop :=
+  resF = NErr e /\ exists pre a' a t, evsF = pre ++ [EvAttachment a'] /\
+                                     evsC = pre ++ EvAttachment a :: t /\ att_truncated a' a.
+
+Lemma lex_next_sim_gen : forall fF fC pcap sF sC evs evsF resF sF' evsC resC sC',
+  srel sF sC ->
+  lex_next lo dstream fF pcap sF evs = Ok (evsF, resF, sF') ->
+  lex_next lo dstream fC pcap sC evs = Ok (evsC, resC, sC') ->
+  next_same evsF resF sF' evsC resC sC' \/ next_fail evsF resF evsC \/ next_trunc evsF resF evsC.
+Proof.
+  induction fF as [|fF IH]; intros fC pcap sF sC evs evsF resF sF' evsC resC sC' S; [discriminate|].
+  destruct fC as [|fC]; [discriminate|]. intros HF HC.
+  pose proof (lex_next_mono _ _ _ _ _ _ _ HC) as [tC HtC].
+  rewrite lex_next_S in HF, HC.
+  destruct (lex_step_sim_gen pcap sF sC evs S) as [[s1 Hs]|[Hs|Hs]].
+  - rewrite Hs in HF. inversion HF; subst. right. left. split; [reflexivity|]. exists tC. reflexivity.
+  - destruct (lex_step lo dstream pcap sF evs) as [a b c|s1 e1], (lex_step lo dstream pcap sC evs) as [a' b' c'|s1' e1'];
+      cbn [step_rel] in Hs; try contradiction.
+    + destruct Hs as [-> [-> S1]]. inversion HF; inversion HC; subst. left. split; [reflexivity|split; [reflexivity|exact S1]].
+    + destruct Hs as [-> S1]. eapply IH; eauto.
+  - destruct Hs as [a' [a [Ht [HeC HxF]]]].
+    assert (GC : exists t, evsC = evs ++ EvAttachment a :: t).
+    { destruct (lex_step lo dstream pcap sC evs) as [a0 b0 c0|s1' e1']; cbn [step_evs] in HeC; subst.
+      - inversion HC; subst. exists []. reflexivity.
+      - apply lex_next_mono in HC. destruct HC as [t2 ->]. exists t2. rewrite <- app_assoc. reflexivity. }
+    destruct GC as [t2 ->].
+    assert (GF : evsF = evs ++ [EvAttachment a'] /\ resF = NErr e).
+    { destruct HxF as [[s1 Hx]|[s1 [Hx Hd]]]; rewrite Hx in HF.
+      - inversion HF; subst. auto.
+      - destruct fF as [|fF']; [discriminate|]. rewrite lex_next_S in HF.
+        destruct (dead_step pcap s1 (evs ++ [EvAttachment a']) Hd) as [s2 Hd2]. rewrite Hd2 in HF.
+        inversion HF; subst. auto. }
+    destruct GF as [-> ->]. right. right. split; [reflexivity|]. exists evs, a', a, t2. auto.
+Qed.
+
+Lemma lex_loop_sim_gen : forall n n' fF fC sF sC acc evsF finF sF' evsC finC sC',
+  srel sF sC ->
+  lex_loop lo dstream n fF sF acc = Ok (evsF, finF, sF') ->
+  lex_loop lo dstream n' fC sC acc = Ok (evsC, finC, sC') ->
+  events_prefix_upto_attachment evsF evsC /\ (finF = e \/ (finF = finC /\ evsF = evsC)).
+Proof.
+  induction n as [|n IH]; intros n' fF fC sF sC acc evsF finF sF' evsC finC sC' S; [discriminate|].
+  destruct n' as [|n']; [discriminate|]. cbn [lex_loop].
+  destruct (lex_next lo dstream fF 0 sF []) as [[[evs1 r] s1]| | | |] eqn:EF; try discriminate.
+  destruct (lex_next lo dstream fC 0 sC []) as [[[evs1' r'] s1']| | | |] eqn:EC; try discriminate.
+  destruct (lex_next_sim_gen _ _ _ _ _ _ _ _ _ _ _ _ S EF EC) as [[<- [<- S1]]|[[-> [t ->]]|[-> [pre [a' [a [t [-> [-> Ht]]]]]]]]].
+  - destruct r.
+    + apply IH. exact S1.
+    + intros H1 H2; inversion H1; inversion H2; subst. split; [left; exists []; rewrite app_nil_r; reflexivity|].
+      right. auto.
+  - intros H1 H2. inversion H1; subst; clear H1. split; [|left; reflexivity]. left.
+    destruct r'.
+    + apply lex_loop_ext in H2. destruct H2 as [t2 ->]. exists (t ++ [ev] ++ t2).
+      rewrite <- !app_assoc. reflexivity.
+    + inversion H2; subst. exists t. rewrite <- !app_assoc. reflexivity.
+  - intros H1 H2. inversion H1; subst; clear H1. split; [|left; reflexivity]. right.
+    destruct r'.
+    + apply lex_loop_ext in H2. destruct H2 as [t2 ->].
+      exists (acc ++ pre), a', a, (t ++ [ev] ++ t2). split; [apply app_assoc|split; [|exact Ht]].
+      rewrite <- !app_assoc. reflexivity.
+    + inversion H2; subst. exists (acc ++ pre), a', a, t. split; [apply app_assoc|split; [|exact Ht]].
+      rewrite <- !app_assoc. reflexivity.
+Qed.
+
+Theorem lex_all_error_prefix_gen fuel fuel' p rest sk evsF finF sF evsC finC sC :
+  lex_all lo dstream fuel {| r_buf := p; r_end := Some e; r_seek := sk |} = Ok (evsF, finF, sF) ->
+  lex_all lo dstream fuel' {| r_buf := p ++ rest; r_end := None; r_seek := sk |} = Ok (evsC, finC, sC) ->
+  events_prefix_upto_attachment evsF evsC /\ (finF = e \/ (finF = finC /\ evsF = evsC)).
+Proof.
+  unfold lex_all.
+  destruct (new_lexer lo {| r_buf := p; r_end := Some e; r_seek := sk |}) as [s0| | | |] eqn:EF; try discriminate.
+  destruct (new_lexer_sim p rest sk s0 EF) as [s0C [EC S]]. rewrite EC.
+  apply lex_loop_sim_gen. exact S.
+Qed.
+
+Hypothesis Hcb : lo_cb lo = CbNone.
 
 Lemma lex_step_sim pcap sF sC evs : srel sF sC ->
   (exists sF', lex_step lo dstream pcap sF evs = SDone evs (NErr e) sF') \/
@@ -1756,15 +2384,6 @@ Proof.
   - destruct Hs as [-> S1]. apply IH. exact S1.
 Qed.
 
-Lemma lex_loop_ext : forall n fuel s acc evs fin s',
-  lex_loop lo dstream n fuel s acc = Ok (evs, fin, s') -> exists t, evs = acc ++ t.
-Proof.
-  induction n as [|n IH]; intros fuel s acc evs fin s'; [discriminate|]. cbn [lex_loop].
-  destruct (lex_next lo dstream fuel 0 s []) as [[[evs1 r] s1]| | | |]; try discriminate.
-  destruct r.
-  - intros H. apply IH in H. destruct H as [t ->]. exists ((evs1 ++ [ev]) ++ t). rewrite <- app_assoc. reflexivity.
-  - intros H; inversion H; subst. eexists. reflexivity.
-Qed.
 
 Lemma lex_loop_sim : forall n n' fF fC sF sC acc evsF finF sF' evsC finC sC',
   srel sF sC ->
@@ -1789,22 +2408,6 @@ Proof.
       right. auto.
 Qed.
 
-Lemma new_lexer_sim p rest sk sF :
-  new_lexer lo {| r_buf := p; r_end := Some e; r_seek := sk |} = Ok sF ->
-  exists sC, new_lexer lo {| r_buf := p ++ rest; r_end := None; r_seek := sk |} = Ok sC /\ srel sF sC.
-Proof.
-  assert (C0 : cut {| r_buf := p; r_end := Some e; r_seek := sk |} {| r_buf := p ++ rest; r_end := None; r_seek := sk |}).
-  { split; [reflexivity|split; [reflexivity|exists rest; reflexivity]]. }
-  unfold new_lexer. destruct (lo_skip_magic lo).
-  { intros H; inversion H; subst. eexists. split; [reflexivity|].
-    split; [exact C0|]. rsimpl. repeat split. }
-  destruct (rd_full 8 {| r_buf := p; r_end := Some e; r_seek := sk |}) as [[m x] r1] eqn:EF.
-  destruct (rd_full_rrel _ _ _ _ _ _ (or_intror C0) EF) as [[-> _]|[r1C [EC [EeC HC]]]]; [discriminate|].
-  rewrite EC. destruct x; [discriminate|]. destruct (bytes_eqb m magic); [|discriminate].
-  intros H; inversion H; subst. eexists. split; [reflexivity|].
-  destruct HC as [[HC _]|HC]; [discriminate|].
-  split; [exact HC|]. rsimpl. repeat split. exact EeC.
-Qed.
 
 Theorem lex_all_error_prefix fuel fuel' p rest sk evsF finF sF evsC finC sC :
   lex_all lo dstream fuel {| r_buf := p; r_end := Some e; r_seek := sk |} = Ok (evsF, finF, sF) ->
@@ -2014,7 +2617,7 @@ Theorem error_prefix_stmt : forall lo dstream e,
     (exists t, evsC = evsF ++ t) /\ (finF = e \/ (finF = finC /\ evsF = evsC)).
 Proof.
   intros lo dstream e H1 H2 H3 H4 Hcb Hp Hm.
-  exact (lex_all_error_prefix lo dstream e H1 H2 H3 H4 Hcb Hp Hm).
+  exact (lex_all_error_prefix lo dstream e H1 H2 H3 H4 Hp Hm Hcb).
 Qed.
 
 (* a clean EOF reported on a failing source is not caused by the failure: the complete input gives
@@ -2037,19 +2640,23 @@ Qed.
 
 (* the general statement (attachment callbacks allowed): the last attachment event of the failing
    run may carry fewer data bytes *)
-Definition att_truncated (a' a : attobs) : Prop :=
-  ao_log a' = ao_log a /\ ao_create a' = ao_create a /\ ao_name a' = ao_name a /\
-  ao_media a' = ao_media a /\ ao_size a' = ao_size a /\ exists t, ao_data a = ao_data a' ++ t.
-Definition events_prefix_upto_attachment (evsF evsC : list event) : Prop :=
-  (exists t, evsC = evsF ++ t) \/
-  (exists pre a' a t, evsF = pre ++ [EvAttachment a'] /\ evsC = pre ++ EvAttachment a :: t /\
-                      att_truncated a' a).
-Definition error_prefix_full_statement : Prop :=
-  forall lo dstream e,
-  e <> EEOF -> e <> EUnexpectedEOF -> e <> ETruncated -> e <> EInvalidChunkCrc -> e <> ECallback ->
+Theorem error_prefix_full_stmt : forall lo dstream e,
+  e <> EEOF -> e <> EUnexpectedEOF -> e <> ETruncated -> e <> EInvalidChunkCrc ->
   (forall c a, snd (dstream c a (Some e)) = Some e) ->
   (forall c a t, exists u, fst (dstream c (a ++ t) None) = fst (dstream c a (Some e)) ++ u) ->
   forall fuel fuel' p rest sk evsF finF sF evsC finC sC,
     lex_all lo dstream fuel {| r_buf := p; r_end := Some e; r_seek := sk |} = Ok (evsF, finF, sF) ->
     lex_all lo dstream fuel' {| r_buf := p ++ rest; r_end := None; r_seek := sk |} = Ok (evsC, finC, sC) ->
     events_prefix_upto_attachment evsF evsC /\ (finF = e \/ (finF = finC /\ evsF = evsC)).
+Proof.
+  intros lo dstream e H1 H2 H3 H4 Hp Hm.
+  exact (lex_all_error_prefix_gen lo dstream e H1 H2 H3 H4 Hp Hm).
+Qed.
+
+(* a file with an attachment record (4 data bytes), for the callback examples *)
+Definition ex_att_body : bytes :=
+  enc_attachment_fields {| a_log := 1; a_create := 2; a_name := [x6e]; a_media := [x6d]; a_size := 4; a_data := [] |}
+  ++ [x01; x02; x03; x04] ++ u32 0.
+Definition ex_att_file : bytes := magic ++ ex_hdr ++ frame OpAttachment ex_att_body ++ ex_msg [x64].
+Definition ex_events (x : outcome (list event * err * lstate)) : list event :=
+  match x with Ok (a, _, _) => a | _ => [] end.
